@@ -1,0 +1,173 @@
+//! Read-only structure walker for external verification harnesses.
+//!
+//! Compiled only with `--cfg lru_mem_verif`; the shipped crate does not
+//! contain this module. Nothing in here writes to the cache, touches a key or
+//! a value, or requires any trait bound on `K`, `V` or `S`.
+
+use crate::LruCache;
+use crate::entry::Entry;
+
+/// One node of the recency list as seen by the walker.
+#[derive(Clone, Debug, Eq, PartialEq)]
+pub struct VerifNode {
+    /// Address of the entry (a bucket of the table).
+    pub addr: usize,
+    /// The entry's `prev` link (towards the most-recently-used end).
+    pub prev: usize,
+    /// The entry's `next` link (towards the least-recently-used end).
+    pub next: usize,
+    /// The size recorded in the entry.
+    pub size: usize
+}
+
+/// A snapshot of the private structure of an [LruCache].
+#[derive(Clone, Debug, Eq, PartialEq)]
+pub struct VerifStructure {
+    /// Address of the seal node.
+    pub seal: usize,
+    /// `seal.next` as stored.
+    pub seal_next: usize,
+    /// `seal.prev` as stored.
+    pub seal_prev: usize,
+    /// The list nodes in `next` order from the seal, i.e. from most- to
+    /// least-recently-used.
+    pub nodes_mru_to_lru: Vec<VerifNode>,
+    /// Address of the end of the table's data part (changes on reallocation).
+    pub table_ptr: usize,
+    /// Number of buckets of the table.
+    pub buckets: usize,
+    /// Number of items in the table.
+    pub items: usize,
+    /// `RawTable::capacity`.
+    pub capacity: usize,
+    /// The `current_size` field.
+    pub current_size: usize,
+    /// The `max_size` field.
+    pub max_size: usize
+}
+
+impl<K, V, S> LruCache<K, V, S> {
+
+    /// Walks the recency list in both directions without ever following a
+    /// link that is neither the seal nor a live bucket of the current table.
+    /// Returns a description of the first inconsistency found as an error.
+    pub fn verif_structure(&self) -> Result<VerifStructure, String> {
+        let seal = self.seal.addr();
+        let items = self.table.len();
+        let mut live = Vec::with_capacity(items);
+
+        unsafe {
+            for bucket in self.table.iter() {
+                live.push(bucket.as_ptr() as usize);
+            }
+        }
+
+        live.sort_unstable();
+
+        if live.len() != items {
+            return Err(format!("table iteration yields {} buckets, len is {}",
+                live.len(), items));
+        }
+
+        let is_live = |addr: usize| live.binary_search(&addr).is_ok();
+        let seal_entry = self.seal.get();
+        let seal_next = seal_entry.next.addr();
+        let seal_prev = seal_entry.prev.addr();
+        let mut nodes = Vec::with_capacity(items);
+        let mut prev_addr = seal;
+        let mut addr = seal_next;
+
+        // Forward: seal -> MRU -> ... -> LRU -> seal along `next`.
+
+        loop {
+            if addr == seal {
+                break;
+            }
+
+            if nodes.len() >= items {
+                return Err(format!("next-walk does not close after {} nodes",
+                    items));
+            }
+
+            if !is_live(addr) {
+                return Err(format!("next-walk reaches {:#x} after {} nodes, \
+                    which is neither the seal nor a live bucket", addr,
+                    nodes.len()));
+            }
+
+            let entry = unsafe { &*(addr as *const Entry<K, V>) };
+            let node = VerifNode {
+                addr,
+                prev: entry.prev.addr(),
+                next: entry.next.addr(),
+                size: entry.size
+            };
+
+            if node.prev != prev_addr {
+                return Err(format!("node {} (from MRU): prev link does not \
+                    point back to its predecessor", nodes.len()));
+            }
+
+            prev_addr = addr;
+            addr = node.next;
+            nodes.push(node);
+        }
+
+        if nodes.len() != items {
+            return Err(format!("next-walk closes after {} nodes, len is {}",
+                nodes.len(), items));
+        }
+
+        if seal_prev != prev_addr {
+            return Err("seal.prev is not the last node of the next-walk"
+                .to_owned());
+        }
+
+        // Backward: seal -> LRU -> ... -> MRU -> seal along `prev`.
+
+        let mut addr = seal_prev;
+        let mut count = 0usize;
+
+        while addr != seal {
+            if count >= items {
+                return Err(format!("prev-walk does not close after {} nodes",
+                    items));
+            }
+
+            if !is_live(addr) {
+                return Err(format!("prev-walk reaches {:#x} after {} nodes, \
+                    which is neither the seal nor a live bucket", addr,
+                    count));
+            }
+
+            let expected = nodes[items - 1 - count].addr;
+
+            if addr != expected {
+                return Err(format!("prev-walk node {} differs from the \
+                    mirrored next-walk", count));
+            }
+
+            let entry = unsafe { &*(addr as *const Entry<K, V>) };
+            addr = entry.prev.addr();
+            count += 1;
+        }
+
+        if count != items {
+            return Err(format!("prev-walk closes after {} nodes, len is {}",
+                count, items));
+        }
+
+        Ok(VerifStructure {
+            seal,
+            seal_next,
+            seal_prev,
+            nodes_mru_to_lru: nodes,
+            table_ptr: self.table.data_end().as_ptr() as usize,
+            buckets: self.table.buckets(),
+            items,
+            capacity: self.table.capacity(),
+            current_size: self.current_size,
+            max_size: self.max_size
+        })
+    }
+}
